@@ -166,6 +166,9 @@ func c19PipeStats(po *c19PipeObs, rc *c19Recon) {
 	if rc.nrec > 0 {
 		c19Stats["buf-recovered"]++
 	}
+	if rc.badDrops > 0 {
+		c19Stats["buf-recovered-undeliverable-entries"]++
+	}
 	if po.Buf["pending_chunks"] > 0 {
 		c19Stats["buf-parked-at-stop"]++
 	}
